@@ -1010,8 +1010,8 @@ func (s *State) evalForInteger(fe *ast.ForExpression, start *int64, end int64, n
 	var register object.Register
 	newBody = fe.Body
 	// A constant name is never a register: binding it must go through the constant check. Nor is a reserved name
-	// (self, info, an extension function): reading it does not go through the variable.
-	useReg := name != "" && !s.NoReg && s.env.HasRegisters() && !object.Constant(name) && !object.ReservedName(name)
+	// (self, info, an extension function) or the name of the function being run: reading it does not go through the variable.
+	useReg := name != "" && !s.NoReg && s.env.HasRegisters() && !object.Constant(name) && !object.ReservedName(name) && !s.env.IsOwnFunctionName(name)
 	started := false
 	if useReg {
 		var ok bool
